@@ -179,6 +179,34 @@ fn main() {
                         };
                         frame_of(&b, tracing)
                     }
+                    // req batchcount <tracing> <n>: one prepared statement whose value list writes n null cells through the RowWriter
+                    "batchcount" => {
+                        use scylla_cql::serialize::raw_batch::{RawBatchValues, RawBatchValuesIterator};
+                        use scylla_cql::serialize::{RowWriter, SerializationError};
+                        struct Many(usize);
+                        struct ManyIter(Option<usize>);
+                        impl RawBatchValues for Many {
+                            type RawBatchValuesIter<'r> = ManyIter;
+                            fn batch_values_iter(&self) -> ManyIter { ManyIter(Some(self.0)) }
+                        }
+                        impl<'a> RawBatchValuesIterator<'a> for ManyIter {
+                            fn serialize_next(&mut self, writer: &mut RowWriter) -> Option<Result<(), SerializationError>> {
+                                let n = self.0.take()?;
+                                for _ in 0..n { writer.make_cell_writer().set_null(); }
+                                Some(Ok(()))
+                            }
+                            fn is_empty_next(&mut self) -> Option<bool> { self.0.take().map(|n| n == 0) }
+                            fn skip_next(&mut self) -> Option<()> { self.0.take().map(|_| ()) }
+                        }
+                        let id = [1u8, 2u8];
+                        let statements = [BatchStatement::Prepared { id: Cow::Borrowed(&id[..]) }];
+                        let b = Batch { statements: Cow::Borrowed(&statements[..]), batch_type: BatchType::Logged, consistency: Consistency::One, serial_consistency: None, timestamp: None,
+                                        values: Many(a[3].parse().unwrap()) };
+                        match SerializedRequest::make(&b, None, tracing) {
+                            Ok(f) => { let d = f.get_data(); format!("count={}", u16::from_be_bytes([d[17], d[18]])) }
+                            Err(_) => "ERR".to_string(),
+                        }
+                    }
                     _ => "UNKNOWN".to_string(),
                 }
             }
